@@ -1,2 +1,78 @@
-(* C09 Examples (under construction) *)
-Require Import Verif.Model.C09_Types Verif.Model.C09.
+(* C09: non-vacuity — concrete non-trivial instances of the hypotheses and conclusions of the theorems,
+   and the historical defects as instances where a premise fails and the conclusion with it. *)
+From Coq Require Import List String ZArith NArith Bool.
+Import ListNotations.
+Require Import Verif.Model.C09_Types Verif.Gen.C09_Matcher Verif.Model.C09 Verif.Model.C09_Check
+               Verif.Proofs.C09_Frames.
+Open Scope string_scope.
+
+(* (BinaryExpr z@(Ident _) "+" (Or (CallExpr (Binding "x" (Ident _)) []) (CallExpr _ _))) on a + f(1),
+   with the indices the repaired parser assigns: z=0, x=1 *)
+Definition p_f3 (ix : nat) : pat :=
+  pbin_ (PBinding "z" 0 (pid_ PAny)) (PString "+")
+        (POr [pcall_ (PBinding "x" ix (pid_ PAny)) (PList PNone PNone); pcall_ PAny PAny]).
+
+(* premise of impl_sound holds and the conclusion is non-trivial: success with a non-empty State *)
+Example f3_premise : idx_inj_b ["z"; "x"] (p_f3 1) = true.
+Proof. reflexivity. Qed.
+Example f3_repaired :
+  run_impl gen_cfg no_oracle ["z"; "x"] 50 50 (p_f3 1) t_a_plus_f1 = RDone true t_a_plus_f1 [("z", id_ "a")].
+Proof. vm_compute. reflexivity. Qed.
+Example f3_spec :
+  run_spec gen_cfg no_oracle 50 50 (p_f3 1) t_a_plus_f1 = RDone true t_a_plus_f1 [("z", id_ "a")].
+Proof. vm_compute. reflexivity. Qed.
+(* the defect F3: the parser gave the explicit Binding index 0 -> premise idx_inj fails, x leaks, z is lost *)
+Example f3_premise_fails : idx_inj_b ["z"; "x"] (p_f3 0) = false.
+Proof. reflexivity. Qed.
+Example f3_defect :
+  run_impl gen_cfg no_oracle ["z"; "x"] 50 50 (p_f3 0) t_a_plus_f1 = RDone true t_a_plus_f1 [("x", id_ "f")].
+Proof. vm_compute. reflexivity. Qed.
+
+(* the frame invariant is satisfiable in a non-initial situation: one name bound before the frame, one in it *)
+Example frame_inv_instance :
+  frame_inv ["z"; "x"] [("z", id_ "a")] [("z", id_ "a"); ("x", id_ "f")] 2%N.
+Proof.
+  exists [("x", id_ "f")]. split; [reflexivity|]. split.
+  - repeat constructor; simpl; intuition discriminate.
+  - split.
+    + intros n [<-|[]]. exists 1. split; reflexivity.
+    + intros i Hi. destruct i as [|[|i]]; try discriminate.
+      * exists "x". split; [reflexivity|left; reflexivity].
+      * exfalso. change 2%N with (bit 1) in Hi. rewrite testbit_bit in Hi by (repeat constructor). discriminate.
+Qed.
+
+(* the code shape obligations, and what happens when they fail (the three historical matcher shapes) *)
+Definition cfg_not_unframed := mkCfg (cfg_unwrap_left gen_cfg) (cfg_unwrap_right gen_cfg)
+  [OpPush] [OpMerge] [OpPop] [] [] true (cfg_tokens gen_cfg) (cfg_expr_types gen_cfg) (cfg_stmt_types gen_cfg).
+Definition cfg_merge_drops := mkCfg (cfg_unwrap_left gen_cfg) (cfg_unwrap_right gen_cfg)
+  [OpPush] [OpMerge] [OpPop] [OpPush] [OpPop] false (cfg_tokens gen_cfg) (cfg_expr_types gen_cfg) (cfg_stmt_types gen_cfg).
+Definition cfg_or_no_pop := mkCfg (cfg_unwrap_left gen_cfg) (cfg_unwrap_right gen_cfg)
+  [OpPush] [OpMerge] [OpMerge] [OpPush] [OpPop] true (cfg_tokens gen_cfg) (cfg_expr_types gen_cfg) (cfg_stmt_types gen_cfg).
+
+Example no_cex_now : find_cex gen_cfg = [].
+Proof. vm_compute. reflexivity. Qed.
+Example cex_not_unframed : cfg_ok cfg_not_unframed = false /\ find_cex cfg_not_unframed = [0; 4].
+Proof. split; vm_compute; reflexivity. Qed.
+Example cex_merge_drops : cfg_ok cfg_merge_drops = false /\ find_cex cfg_merge_drops = [2].
+Proof. split; vm_compute; reflexivity. Qed.
+Example cex_or_no_pop : cfg_ok cfg_or_no_pop = false /\ find_cex cfg_or_no_pop <> [].
+Proof. split; vm_compute; [reflexivity|discriminate]. Qed.
+
+(* recall: x@(Ident _) + x matches a + a through the value-against-value comparison, not a + b *)
+Definition p_recall := pbin_ (bx (pid_ PAny)) (PString "+") (bx PNone).
+Example recall_equal :
+  run_spec gen_cfg no_oracle 50 50 p_recall (bin_ (id_ "a") 12 (id_ "a")) = RDone true (bin_ (id_ "a") 12 (id_ "a")) [("x", id_ "a")].
+Proof. vm_compute. reflexivity. Qed.
+Example recall_unequal :
+  exists v s, run_spec gen_cfg no_oracle 50 50 p_recall t_a_plus_b = RDone false v s.
+Proof. eexists. eexists. vm_compute. reflexivity. Qed.
+(* F18 (not a C09 violation, modelled faithfully): a recalled STRING never matches *)
+Example recall_string_never :
+  exists v s, run_impl gen_cfg no_oracle ["x"] 50 50 (pbin_ (pid_ (bx PNone)) (PString "+") (pid_ (bx PNone)))
+                       (bin_ (id_ "a") 12 (id_ "a")) = RDone false v s.
+Proof. eexists. eexists. vm_compute. reflexivity. Qed.
+
+(* the two spellings *)
+Example spelling_instance :
+  norm_pat (pbin_ (PBinding "x" 0 PNil) (PString "+") PAny) = norm_pat (pbin_ (PBinding "x" 0 PNone) (PString "+") PAny).
+Proof. reflexivity. Qed.
